@@ -959,6 +959,22 @@ Theorem C05_db_exec_insert_edge_preserves_stored_db :
 Proof. exact so_exec_insert_edge_stored. Qed.
 Print Assumptions C05_db_exec_insert_edge_preserves_stored_db.
 
+(* the REJECTED edge insertion: an endpoint (a positive id: a slot beyond the capacity, a removed slot, the slot of an edge) that
+   is not a node, on a database at rest (empty undo stack): exec fails (no ids) and returns d itself; the program returns
+   None and the store holds d with the SAME witness *)
+Theorem C05_db_exec_insert_edge_rejected_preserves_stored_db :
+  forall (fl : bool) rv root d w h f t sp,
+    stored_db_w (hp sp) root d w -> so_handles h w -> so_graph_ok (gr d) ->
+    (0 < f)%Z -> (0 < t)%Z -> is_node (gr d) f && is_node (gr d) t = false -> undo d = [] ->
+    let q := InsertEdges (Ids [QId f]) (Ids [QId t]) (Single []) false (Ids []) in
+    cwp fl (so_q_insert_edge h f t) sp
+        (fun r sp' => r = CrOk (h, None) /\ qres_ids (snd (Queries.exec rv d q)) = None /\
+                      fst (Queries.exec rv d q) = d /\
+                      stored_db_w (hp sp') root d w /\ sdepth sp' = sdepth sp /\
+                      frame (hp sp) (hp sp') (sd_foot root w) (sd_foot root w)).
+Proof. exact so_exec_insert_edge_rejected_stored. Qed.
+Print Assumptions C05_db_exec_insert_edge_rejected_preserves_stored_db.
+
 Theorem C05_db_exec_remove_edge_preserves_stored_db :
   forall (fl : bool) rv root d w h e sp,
     stored_db_w (hp sp) root d w -> so_handles h w -> (e < 0)%Z -> is_edge (gr d) e = true ->
@@ -1015,7 +1031,8 @@ Print Assumptions C05_db_edge_side_conditions_from_wf.
      CqInsertNode l      so_kvs_ok: at each pair the key is not indexed (idx_find = None), the pair is valid (el_valid law_dbkv:
                          i64 range, valid UTF-8, lengths < 2^60), the element's vector stays below 2^64 bytes
      CqInsertValues id l graph_index (gr d) id = true; so_iors_ok: the same, and a replaced pair's key is not indexed either
-     CqInsertEdge f t    f, t > 0 existing nodes
+     CqInsertEdge f t    f, t > 0, both existing nodes — or (the rejected insertion the correspondence also runs) one of them
+                         not a node and the undo stack empty: the query fails, the program writes nothing and returns None
      CqRemove id         id an edge, or a node with from = to = 0 (no edges) and no alias; none of its keys indexed; AT LEAST
                          ONE PROPERTY (then the file provably holds its property vector: so_slot_valid; for an element without
                          properties that fact lives in the witness only and the theorems above do not expose it)
@@ -1079,6 +1096,13 @@ Example C05_db_sample_covered_history :
   so_covered_all rv_fixed sx_db [CqInsertEdge 2 1; CqRemove (-3)].
 Proof. exact (conj sx_reached sx_link_sample_hinv). Qed.
 Print Assumptions C05_db_sample_covered_history.
+
+(* a rejected insertion is covered too: 3 is the slot of the edge -3, not a node; exec fails and returns sx_db *)
+Example C05_db_sample_covered_rejected :
+  so_covered sx_db (CqInsertEdge 1 3) /\
+  Queries.exec rv_fixed sx_db (cq_query (CqInsertEdge 1 3)) = (sx_db, QErr ENotFound).
+Proof. exact sx_covered_rejected. Qed.
+Print Assumptions C05_db_sample_covered_rejected.
 
 (* so_covered is decidable: the boolean so_coveredb computes it (theories/StoredDbOpsLinkDec.v) *)
 From Agdb Require Import StoredDbOpsLinkDec.
